@@ -84,11 +84,12 @@ theorem doAdvance_refill (read : Read) (l : Lexer) (h : Inv l) :
   simp only [hsz, if_true]
   by_cases hn : l.lookahead = 10
   · simp only [hn, beq_self_eq_true, if_true, Bool.false_eq_true, if_false]
-    have hsk : skipL (l.ranges.toList.drop l.idx) ⟨l.pos.bytes + l.laSize, ⟨l.pos.extent.row + 1, 0⟩⟩ =
+    have hsk : (if l.skipEmpty = true then skipLF (l.ranges.toList.drop l.idx) ⟨l.pos.bytes + l.laSize, ⟨l.pos.extent.row + 1, 0⟩⟩
+        else skipL (l.ranges.toList.drop l.idx) ⟨l.pos.bytes + l.laSize, ⟨l.pos.extent.row + 1, 0⟩⟩) =
         (0, ⟨l.pos.bytes + l.laSize, ⟨l.pos.extent.row + 1, 0⟩⟩, true) := by
       rw [h.ranges, h.idx]
       have := h.small
-      simp [skipL, DEFAULT_RANGE, UMAX] at this ⊢; omega
+      cases l.skipEmpty <;> simp [skipL, skipLF, DEFAULT_RANGE, UMAX] at this ⊢ <;> omega
     simp only [hsk]
     exact ⟨_, rfl, rfl, rfl, by simp [h.idx], rfl, rfl⟩
   · have hn' : (l.lookahead == 10) = false := by simpa using hn
@@ -96,15 +97,16 @@ theorem doAdvance_refill (read : Read) (l : Lexer) (h : Inv l) :
     generalize hl2 : (if (!(l.pos.bytes == 0 && l.lookahead == BYTE_ORDER_MARK) && l.colValid) = true then
         { l with colValue := l.colValue + 1 } else l) = l2
     have e1 : l2.pos = l.pos ∧ l2.laSize = l.laSize ∧ l2.ranges = l.ranges ∧ l2.idx = l.idx ∧
-        l2.chunkStart = l.chunkStart ∧ l2.chunk = l.chunk := by
+        l2.chunkStart = l.chunkStart ∧ l2.chunk = l.chunk ∧ l2.skipEmpty = l.skipEmpty := by
       rw [← hl2]; split <;> simp
-    obtain ⟨p1, p2, p3, p4, p5, p6⟩ := e1
-    simp only [p1, p2, p3, p4]
-    have hsk : skipL (l.ranges.toList.drop l.idx) ⟨l.pos.bytes + l.laSize, ⟨l.pos.extent.row, l.pos.extent.column + l.laSize⟩⟩ =
+    obtain ⟨p1, p2, p3, p4, p5, p6, p7⟩ := e1
+    simp only [p1, p2, p3, p4, p7]
+    have hsk : (if l.skipEmpty = true then skipLF (l.ranges.toList.drop l.idx) ⟨l.pos.bytes + l.laSize, ⟨l.pos.extent.row, l.pos.extent.column + l.laSize⟩⟩
+        else skipL (l.ranges.toList.drop l.idx) ⟨l.pos.bytes + l.laSize, ⟨l.pos.extent.row, l.pos.extent.column + l.laSize⟩⟩) =
         (0, ⟨l.pos.bytes + l.laSize, ⟨l.pos.extent.row, l.pos.extent.column + l.laSize⟩⟩, true) := by
       rw [h.ranges, h.idx]
       have := h.small
-      simp [skipL, DEFAULT_RANGE, UMAX] at this ⊢; omega
+      cases l.skipEmpty <;> simp [skipL, skipLF, DEFAULT_RANGE, UMAX] at this ⊢ <;> omega
     simp only [hsk]
     exact ⟨_, rfl, rfl, by simp [p3], by simp [h.idx], by simp [p5], by simp [p6]⟩
 end TsVerif.C09
